@@ -393,6 +393,12 @@ func (e *mtEnv) runBlock(pending []chain.M, w *chain.TraceWriter) {
 	}
 	for i, ev := range pending {
 		r := res.Txs[i]
+		if r.Aborted {
+			// member of a multi-message transaction that failed as a whole (chain.BundlePct):
+			// whatever it did was rolled back; the specification knows no such event and
+			// treats it as a rejection without effect
+			ev["name"] = "TxFailed"
+		}
 		ev["ok"], ev["panic"] = r.OK, r.Panic
 		// the real uint64 amount, as a decimal string (for readers and a big-number tier)
 		if ra, ok := e.sc.toReal(chain.Num(ev, "amt")); ok {
